@@ -176,8 +176,9 @@ func (self *Transformer) stmtVariants(node ast.AnalyzedStatement, keepNever bool
 		node := node.(ast.AnalyzedLoopStatement)
 
 		output = append(output, ast.AnalyzedLoopStatement{
-			Body:            self.Block(node.Body),
-			NeverTerminates: false,
+			Body: self.Block(node.Body),
+			// A later pass has to see that this loop still never completes.
+			NeverTerminates: node.NeverTerminates,
 			Range:           node.Span(),
 		})
 		if !keepNever {
